@@ -229,6 +229,9 @@ def ninja_observe(m, d, st):
                     agree[i].add("description_by_ninja")
             else:
                 st["ninja_status_lines_differ_from_reference"] += 1
+                cw, cg = collections.Counter(want), collections.Counter(chunks)
+                st.setdefault("status_lines_msgs", []).append("reference only: %s / ninja only: %s" % (
+                    [show(x) for x in (cw - cg)][:3], [show(x) for x in (cg - cw)][:3]))
             got_dep = sorted(mm.group(1) for mm in re.finditer(rb"^ninja explain: depfile '(.*)' is missing$", err, re.M))
             want_dep = sorted(e.get(b"depfile", None, live=True) for e in (m.edges[i] for i in cmd_edges)
                               if e.get(b"deps", None, live=True) == b"" and e.get(b"depfile", None, live=True))
@@ -237,6 +240,7 @@ def ninja_observe(m, d, st):
                     agree[i].add("depfile")
             else:
                 st["ninja_depfiles_differ_from_reference"] += 1
+                st.setdefault("depfile_msgs", []).append("reference %s / ninja %s" % ([show(x) for x in want_dep][:6], [show(x) for x in got_dep][:6]))
             for r, idxs in rsp.items():
                 try:
                     content = open(os.path.join(os.fsencode(d), r), "rb").read()
@@ -624,8 +628,14 @@ def worker(a):
     high = set()
     sample = None
 
+    emitted = collections.Counter()
+
     def emit(key, wit):
-        print(json.dumps({"viol": key, "witness": wit}), flush=True)
+        emitted[key] += 1
+        if emitted[key] <= 2:       # two witnesses per distinct key and shard are enough; the rest is counted
+            print(json.dumps({"viol": key, "witness": wit}), flush=True)
+        else:
+            st["violations_beyond_two_per_key_and_shard_not_listed"] += 1
 
     cstat = collections.Counter()
     for idx in range(a["shard"], a["manifests"], a["nshards"]):
